@@ -18,7 +18,7 @@ from . import c01
 ID = "C16"
 LEVEL = "exploration"
 RULE = ("Hypothesis: 1-3 model names, each with 1-3 input specs (-m file, -m lookup file, deprecated -l, one glob pattern matching 1-3 "
-        "files); every file holds its samples as a top-level list or a single object, optionally wrapped under a dotted lookup "
+        "files, one file addressed several times with different lookups); every file holds its samples as a top-level list or a single object, optionally wrapped under a dotted lookup "
         "path of depth 1-3; option sets expressed as argv (framework, -s, --merge, --max-strings-literals, --datetime, "
         "--strings-converters, --disable-unicode-conversion, --dict-keys-regex/-fields, --code-generator-kwargs meta=true, "
         "--disable-str-serializable-types); input format json / yaml (the JSON text) / ini; -o on/off. Oracle: the expected text is "
@@ -47,6 +47,9 @@ def wrap(value, path):
 def materialise(case, d):
     """write files under directory d; -> (argv, [(model name, [orderings of samples])], ok)"""
     fmt = case["format"]
+    # input files are UTF-8 unless the CLI process will run under a non-UTF-8 locale (then pure ASCII with \u escapes):
+    # how input is decoded is not what is being checked
+    ascii_input = bool(case.get("c_locale") and case.get("output") and fmt == "json")
     ext = {"json": ".json", "yaml": ".yaml", "ini": ".ini"}[fmt]
     m_args, l_args = [], []
     per_model = {}
@@ -56,6 +59,18 @@ def materialise(case, d):
         name = spec["model"]
         files = []
         n += 1
+        if spec["via"] == "same-file":
+            # one document, several sub-documents selected by different lookups for the same model name
+            fname = "f%d%s" % (n, ext)
+            doc = {}
+            for fi, f in enumerate(spec["files"]):
+                doc["part%d" % fi] = f["samples"] if f["as_list"] else f["samples"][0]
+            with open(os.path.join(d, fname), "w", encoding="utf-8") as fp:
+                json.dump(wrap(doc, spec["lookup"]), fp, ensure_ascii=ascii_input)
+            for fi, f in enumerate(spec["files"]):
+                m_args += ["-m", name, ".".join(spec["lookup"] + ["part%d" % fi]), fname]
+                per_model.setdefault("m", []).append((name, "m", [f["samples"] if f["as_list"] else [f["samples"][0]]]))
+            continue
         for fi, f in enumerate(spec["files"]):
             sub = ("g%d" % n) if spec["via"] == "glob" else ""
             if sub:
@@ -67,7 +82,7 @@ def materialise(case, d):
                 if fmt == "ini":
                     write_ini(fp, doc)
                 else:
-                    json.dump(doc, fp, ensure_ascii=False)
+                    json.dump(doc, fp, ensure_ascii=ascii_input)
             files.append((fname, f["samples"] if f["as_list"] else [f["samples"][0]]))
         lookup = ".".join(spec["lookup"]) if spec["lookup"] else "-"
         if spec["via"] == "m":
@@ -251,7 +266,12 @@ def check_with(case, driver):
                 rc, stdout = 1, ""
                 got_exc = type(e).__name__
         else:
-            rc, stdout, stderr = subproc.run_cli(argv, cwd=d)
+            extra = None
+            if case["output"] and case.get("c_locale") and case["format"] == "json" and all(a.isascii() for a in argv):
+                # the file is written by a process whose locale encoding is not UTF-8
+                extra = {"LC_ALL": "C", "LANG": "C", "PYTHONUTF8": "0", "PYTHONCOERCECLOCALE": "0"}
+                r.label("-o-under-C-locale")
+            rc, stdout, stderr = subproc.run_cli(argv, cwd=d, extra_env=extra)
         if exp is None:
             if rc == 0:
                 r.fail("cli-succeeds-where-library-raises", f"{exp_exc}; argv {argv}")
@@ -324,10 +344,10 @@ def cases(draw, tier="quick", formats=("json", "json", "json", "yaml", "ini")):
     specs = []
     for name in names:
         for _ in range(draw(st.sampled_from([1, 1, 2, 3]))):
-            via = draw(st.sampled_from(["m", "m", "m", "l", "glob"]))
+            via = draw(st.sampled_from(["m", "m", "m", "l", "glob", "same-file"]))
             if fmt == "ini":
                 via = draw(st.sampled_from(["m", "m", "glob"]))
-            nf = draw(st.integers(1, 3)) if via == "glob" else 1
+            nf = draw(st.integers(1, 3)) if via == "glob" else draw(st.integers(2, 3)) if via == "same-file" else 1
             lookup = draw(st.lists(st.sampled_from(LOOKUP_KEYS), max_size=3)) if fmt != "ini" else []
             if via == "l" and not lookup and draw(st.booleans()):
                 lookup = [draw(st.sampled_from(LOOKUP_KEYS))]
@@ -343,6 +363,8 @@ def cases(draw, tier="quick", formats=("json", "json", "json", "yaml", "ini")):
     # keep the number of admissible glob orderings small enough to enumerate (<= 36)
     budget = 36
     for sp in specs:
+        if sp["via"] != "glob":
+            continue
         f = {1: 1, 2: 2, 3: 6}[len(sp["files"])]
         if f > budget:
             sp["files"] = sp["files"][:1]
@@ -354,7 +376,8 @@ def cases(draw, tier="quick", formats=("json", "json", "json", "yaml", "ini")):
     o["disabled"] = draw(st.sampled_from([[], [], [], ["int"], ["float", "bool"], ["IsoDateString"], ["date", "time"]]))
     if o["nested"] and len(names) > 1:
         o["nested"] = draw(st.booleans())
-    return {"specs": specs, "opts": o, "format": fmt, "output": draw(st.sampled_from([False, False, True]))}
+    return {"specs": specs, "opts": o, "format": fmt, "output": draw(st.sampled_from([False, False, True])),
+            "c_locale": draw(st.booleans())}
 
 
 def valid(case):
@@ -371,13 +394,16 @@ def valid(case):
             return False
         perms = 1
         for s in case["specs"]:
-            perms *= {1: 1, 2: 2, 3: 6}.get(len(s["files"]), 99)
+            if s["via"] == "glob":
+                perms *= {1: 1, 2: 2, 3: 6}.get(len(s["files"]), 99)
         if perms > 36:
             return False
         for s in case["specs"]:
-            if s["via"] not in ("m", "l", "glob") or not s["files"] or not s["model"].isidentifier():
+            if s["via"] not in ("m", "l", "glob", "same-file") or not s["files"] or not s["model"].isidentifier():
                 return False
-            if s["via"] != "glob" and len(s["files"]) != 1:
+            if s["via"] in ("m", "l") and len(s["files"]) != 1:
+                return False
+            if s["via"] == "same-file" and case["format"] == "ini":
                 return False
             if len(s["files"]) > 3:
                 return False
